@@ -47,6 +47,17 @@ FirstOrderOK == CoSpherical => \A e \in UnitSteps : \A k \in {1, 2, 3} :
 TranslationInvariant == Full => CofactorDet(A, B, C, D, V) =
                           CofactorDet(VAdd(A, <<3,1,2>>), VAdd(B, <<3,1,2>>), VAdd(C, <<3,1,2>>), VAdd(D, <<3,1,2>>), VAdd(V, <<3,1,2>>))
 
+\* the sign is invariant under SIMILARITY maps of the grid (uniform scale 2, 3 + translation; the determinant scales with k^5) ...
+Sim(p, k) == VAdd(VScale(k, p), <<1, 2, 0>>)
+SimilarityInvariant == Full => \A k \in {2, 3} :
+                          Sign(CofactorDet(Sim(A, k), Sim(B, k), Sim(C, k), Sim(D, k), Sim(V, k))) = Sign(CofactorDet(A, B, C, D, V))
+\* ... but NOT under a scaling of one axis alone: NoAnisoInvariance is expected to be VIOLATED (finding F13: the map from positions
+\* to the integer grid must use one scale for all used axes, or the predicate decides about an ellipsoid)
+Aniso(p) == <<2 * p[1], p[2], p[3]>>
+NoAnisoInvariance == (Full /\ Orient(A, B, C, D) # 0) =>
+                          Sign(CofactorDet(Aniso(A), Aniso(B), Aniso(C), Aniso(D), Aniso(V))) * Sign(Orient(Aniso(A), Aniso(B), Aniso(C), Aniso(D)))
+                          = Sign(CofactorDet(A, B, C, D, V)) * Sign(Orient(A, B, C, D))
+
 Hash == (7 * A[1] + 3 * A[2] + A[3] + 11 * B[1] + 5 * B[2] + 2 * B[3] + 13 * C[1] + C[2] + 17 * C[3]
          + 19 * D[1] + 23 * D[2] + D[3] + 29 * V[1] + 31 * V[2] + 37 * V[3]) % EmitMod
 EmitVec == (Emit /\ Full /\ Hash = 0) =>
